@@ -528,10 +528,10 @@ def sweep_families(tier):
         f["park"] = park            # which threads are parked (None = each in turn); symmetric pairs need one direction only
         S.append(f)
     sf("sweep-slotfill-slotfill", [slot_task("xa", "fill"), slot_task("xb", "fill")], park=["A"])
-    sf("sweep-slotfill-slotdefault", [slot_task("xa", "fill"), slot_task("xd", "default")])
+    sf("sweep-slotfill-slotdefault", [slot_task("xa", "fill"), slot_task("xd", "default")], park=["B"])
     sf("sweep-plain-plain", [T_PLAIN, T_PLAIN2], park=["A"])
     sf("sweep-inj-inj", [T_INJ, T_INJ2], park=["A"])
-    sf("sweep-nest-failp", [T_NEST, T_FAILP])
+    sf("sweep-nest-failp", [T_NEST, T_FAILP], park=["B"])
     sf("sweep-media-media", [T_MEDIA, T_MEDIA], park=["A"])
     # both threads render the SAME Template object, compiled for this run, for the FIRST time: tag arguments are
     # compiled lazily at first render and that state lives on the nodes of the shared template
